@@ -27,8 +27,10 @@ EmitProg(ops) == PrintT(<<"PROGRAM", ToJson(Prog(ops))>>)
 \* ===========================================================================
 PlanTMN == IF Tier = "quick" THEN {<<0, 2, 2>>, <<1, 3, 6>>, <<2, 8, 1>>}
            ELSE {<<0, 1, 6>>, <<0, 2, 2>>, <<1, 3, 6>>, <<1, 8, 1>>, <<2, 2, 3>>, <<2, 8, 1>>, <<3, 4, 6>>}
-PlanCfgs == {[impl |-> i, thr |-> x[1], max |-> x[2], maxn |-> x[3], bw |-> 0, shift |-> s, lim |-> N - 1] :
-               i \in {"basic", "adv"}, x \in PlanTMN, s \in {"0", "top"}}
+\* quick: the top-of-u64 copies of the requests only for one configuration
+PlanCfgs == {c \in {[impl |-> i, thr |-> x[1], max |-> x[2], maxn |-> x[3], bw |-> 0, shift |-> s, lim |-> N - 1] :
+                      i \in {"basic", "adv"}, x \in PlanTMN, s \in {"0", "top"}} :
+               Tier = "quick" /\ c.shift = "top" => c.thr = 1}
 Ranges == {r \in (0..(N - 1)) \X (0..(N - 1)) : r[1] <= r[2]}
 Reqs   == UNION {[1..k -> Ranges] : k \in 0..K}
 
